@@ -1512,6 +1512,12 @@ def _c12_one(lat, lon, naive_utc, z, o=None):
     if abs(alt - el) > 0.05:
         return "elevation %.4f vs independent lunar ephemeris %.4f (0.05 deg)" % (el, alt)
     daz = abs((az - aaz + 180.0) % 360.0 - 180.0) * math.cos(math.radians(alt))
+    if alt > 89.0 or alt < -89.0:
+        # next to the zenith the azimuth is ill-conditioned (two directions 0.03° apart can be
+        # 180° apart in azimuth): judge the angular separation of the two directions instead
+        c = (math.sin(math.radians(el)) * math.sin(math.radians(alt))
+             + math.cos(math.radians(el)) * math.cos(math.radians(alt)) * math.cos(math.radians(az - aaz)))
+        daz = 0.0 if math.degrees(math.acos(max(-1.0, min(1.0, c)))) <= 0.07 else daz
     if daz > 0.05:
         return "azimuth %.4f vs independent lunar ephemeris %.4f (scaled difference %.4f > 0.05)" % (
             az, aaz, daz)
@@ -1521,10 +1527,21 @@ def _c12_one(lat, lon, naive_utc, z, o=None):
 def search_C12(rng, deadline, broken):
     import gens
     import zones
+    import corr_moon
+    n = 0
     while time.time() < deadline:
+        n += 1
         lat, lon = gens.rand_lat(rng), gens.rand_lon(rng)
         naive = datetime.datetime.fromordinal(rng.randint(gens.D1900, gens.D2100)) + \
             datetime.timedelta(seconds=rng.randint(0, 86399))
+        if n % 2 == 0:
+            # the moon at the zenith / nadir: where an inverse sine or cosine runs out of domain
+            try:
+                sl = corr_moon.sublunar(rng, naive)
+            except Exception:  # noqa: BLE001
+                sl = None
+            if sl is not None:
+                lat, lon = sl
         z = zones.rand_zone(rng, naive.date())
         try:
             r = _c12_one(lat, lon, naive, z)
